@@ -1156,8 +1156,11 @@ func (cs *ConsensusState) enterPrecommit(height int64, round int64) {
 		return
 	}
 
-	// If +2/3 prevoted for proposal block, stage and precommit it
-	if cs.ProposalBlock.HashesTo(blockID.Hash) {
+	// If +2/3 prevoted for proposal block, stage and precommit it.
+	// "Our proposal block" means the same hash AND the same parts header: the hash covers the header only, so the
+	// round's proposer can hand us the polka block's header with another body (other LastCommit/Data, hence other
+	// parts).  That body is not the block the others prevoted; we fetch the real parts below instead of dying.
+	if cs.ProposalBlock.HashesTo(blockID.Hash) && cs.ProposalBlockParts.HasHeader(blockID.PartsHeader) {
 		log.Debugf("enterPrecommit: +2/3 prevoted proposal block. Locking hash %X", blockID.Hash)
 		// Validate the block.
 		if err := cs.state.ValidateBlock(cs.ProposalBlock); err != nil {
@@ -1243,8 +1246,8 @@ func (cs *ConsensusState) enterCommit(height int64, commitRound int64) {
 		cs.ProposalBlockParts = cs.LockedBlockParts
 	}
 
-	// If we don't have the block being committed, set up to get it.
-	if !cs.ProposalBlock.HashesTo(blockID.Hash) {
+	// If we don't have the block being committed (same hash and same parts header), set up to get it.
+	if !cs.ProposalBlock.HashesTo(blockID.Hash) || !cs.ProposalBlockParts.HasHeader(blockID.PartsHeader) {
 		if !cs.ProposalBlockParts.HasHeader(blockID.PartsHeader) {
 			// We're getting the wrong block.
 			// Set up ProposalBlockParts and keep waiting.
@@ -1267,7 +1270,7 @@ func (cs *ConsensusState) tryFinalizeCommit(height int64) {
 		log.Error("Attempt to finalize failed. There was no +2/3 majority, or +2/3 was for <nil>.")
 		return
 	}
-	if !cs.ProposalBlock.HashesTo(blockID.Hash) {
+	if !cs.ProposalBlock.HashesTo(blockID.Hash) || !cs.ProposalBlockParts.HasHeader(blockID.PartsHeader) {
 		// TODO: this happens every time if we're not a validator (ugly logs)
 		// TODO: ^^ wait, why does it matter that we're a validator?
 		log.Info(fmt.Sprintf("Attempt to finalize failed. We don't have the commit block. proposal-block: %s , commit-block: %s", cs.ProposalBlock.Hash(), blockID.Hash))
